@@ -99,6 +99,15 @@ of_status_t	of_rs_2_m_set_fec_parameters   (of_rs_2_m_cb_t*		ofcb,
 				ofcb->nb_source_symbols, ofcb->max_nb_source_symbols))
 		goto error;
 	}
+	if (params->nb_repair_symbols > 0xFFFFFFFF - params->nb_source_symbols ||
+	    (params->nb_source_symbols > 1 &&
+	     params->nb_source_symbols + params->nb_repair_symbols > ofcb->max_nb_encoding_symbols)) {
+		/* NB: with a single source symbol the code degenerates into a repetition code, which remains
+		 * valid for any n (all the evaluation points are raised to the power 0), so it is tolerated. */
+		OF_PRINT_ERROR(("ERROR: invalid number of encoding symbols (k=%d, n-k=%d, maximum n is %d)",
+				params->nb_source_symbols, params->nb_repair_symbols, ofcb->max_nb_encoding_symbols))
+		goto error;
+	}
 	ofcb->nb_source_symbols		= params->nb_source_symbols;
 	ofcb->nb_repair_symbols		= params->nb_repair_symbols;
 	ofcb->encoding_symbol_length	= params->encoding_symbol_length;
